@@ -26,11 +26,20 @@ _CALLMUT = {'k': 'const', 'ty': 'fn', 'fn': 'std::ops::FnMut::call_mut', 'fn_can
             'synthetic': True}
 
 
+PAR_REDUCTIONS = ('max', 'max_by', 'min', 'min_by', 'max_by_key', 'min_by_key', 'reduce', 'reduce_with', 'collect', 'find_any',
+                  'find_first', 'sum', 'count', 'for_each')
+
+_CANDIDATE = {'k': 'const', 'ty': 'fn', 'fn': 'pk::candidate', 'fn_canon': 'pk::candidate', 'fn_local': False, 'gargs': [], 'synthetic': True}
+
+
 def _is_consumer(t):
     fc = t['func']
     if fc.get('k') != 'const' or 'fn' not in fc:
         return None
     tr = fc.get('trait_canon') or fc.get('trait') or ''
+    if tr.endswith('ParallelIterator') and not t.get('par_done'):
+        last = fc['fn'].rsplit('::', 1)[-1]
+        return 'par' if last in PAR_REDUCTIONS else None
     if not tr.endswith('iterator::Iterator') and not tr.endswith('iter::Iterator'):
         return None
     last = fc['fn'].rsplit('::', 1)[-1]
@@ -93,6 +102,32 @@ def desugar_once(body):
         it_ty = args[0].get('ty', '?')
         by_ref = it_ty.startswith('&mut')
         pre = w.blocks[bi]['stmts']
+        if kind == 'par':
+            # a rayon reduction: `for x in chain { candidate(x) }` followed by the reduction call itself (which of the
+            # candidates it returns is the reduction's documented meaning; each candidate is produced once per item)
+            it_l = w.local(it_ty, None)
+            pre.append(_assign(_pl(it_l, it_ty), {'r': 'use', 'a': copy.deepcopy(args[0])}, span))
+            n_l = w.local('std::option::Option<?item>')
+            d_l = w.local('isize')
+            x_l = w.local('?item')
+            u_l = w.local('()')
+            itr_l = w.local('&mut ' + it_ty)
+            red = copy.deepcopy(t)
+            red['par_done'] = True
+            red['args'] = [_op(it_l, it_ty)] + copy.deepcopy(args[1:])
+            ex = w.block([], red)
+            hdr = w.block([_assign(_pl(itr_l), {'r': 'ref', 'mut': True, 'bk': 'Mut', 'place': _pl(it_l, it_ty)}, span)], None)
+            sw = w.block([_assign(_pl(d_l, 'isize'), {'r': 'discr', 'place': _pl(n_l)}, span)], None)
+            some0 = [{'downcast': 'Some', 'vi': 1}, {'f': 0, 'n': '0', 'of': 'std::option::Option<?item>', 'ty': '?item'}]
+            bodyb = w.block([_assign(_pl(x_l, '?item'), {'r': 'use', 'a': _op(n_l, '?item', some0)}, span)], None)
+            nf = dict(_NEXT)
+            w.blocks[hdr]['term'] = {'t': 'call', 'func': nf, 'args': [_op(itr_l, '&mut ' + it_ty)], 'dest': _pl(n_l), 'target': sw,
+                                     'unwind': None, 'span': span, 'fn_span': t.get('fn_span'), 'syn': 'par'}
+            w.blocks[sw]['term'] = {'t': 'switch', 'discr': _op(d_l, 'isize'), 'arms': [['0', ex]], 'otherwise': bodyb, 'span': span}
+            w.blocks[bodyb]['term'] = {'t': 'call', 'func': dict(_CANDIDATE), 'args': [_op(x_l, '?item')], 'dest': _pl(u_l, '()'),
+                                       'target': hdr, 'unwind': None, 'span': span, 'fn_span': t.get('fn_span'), 'syn': 'par'}
+            w.blocks[bi]['term'] = {'t': 'goto', 'target': hdr, 'span': span, 'syn_consumer': kind}
+            continue
         # the iterator lives in a local `it`; `itr` is the &mut handed to next()
         if by_ref:
             it_ref_src = args[0]
@@ -191,12 +226,158 @@ def desugar_once(body):
     return nb, len(sites)
 
 
+OPTION_COMBINATORS = ('unwrap_or_else', 'unwrap_or', 'map', 'and_then', 'filter', 'or_else', 'map_or', 'map_or_else')
+
+_CALLONCE = {'k': 'const', 'ty': 'fn', 'fn': 'std::ops::FnOnce::call_once', 'fn_canon': 'core::ops::function::FnOnce::call_once',
+             'fn_local': False, 'gargs': [], 'trait': 'std::ops::FnOnce', 'trait_canon': 'core::ops::function::FnOnce', 'synthetic': True}
+
+
+def desugar_options_once(body):
+    """Option combinators that take closures (and unwrap_or) rewritten as the `match` their definitions are."""
+    sites = []
+    for bi, t in body.calls():
+        fc = t['func']
+        nm = fc.get('fn') or ''
+        last = nm.rsplit('::', 1)[-1]
+        if 'option::Option::<T>::' in nm and last in OPTION_COMBINATORS and t.get('target') is not None:
+            sites.append((bi, last))
+        elif nm.endswith(('<impl bool>::then', '<impl bool>::then_some')) and t.get('target') is not None:
+            sites.append((bi, last))
+    if not sites:
+        return body, 0
+    w = _B(body)
+    some0 = [{'downcast': 'Some', 'vi': 1}, {'f': 0, 'n': '0', 'of': 'std::option::Option<?>', 'ty': '?'}]
+    none_rv = {'r': 'aggr', 'agg': 'adt', 'adt': 'std::option::Option', 'variant': 'None', 'vi': 0, 'fields': [], 'ops': []}
+    for bi, kind in sites:
+        t = w.blocks[bi]['term']
+        span = t.get('span')
+        args, dest, target = t['args'], t['dest'], t['target']
+        pre = w.blocks[bi]['stmts']
+        dty = dest.get('ty', '?')
+
+        def call_clo(clo_l, ops, ret_place, tgt):
+            tup_l = w.local('(tuple)')
+            tup_ty = '(%s)' % ', '.join(['?'] * len(ops)) if len(ops) != 1 else '(?,)'
+            stmts = [_assign(_pl(tup_l, tup_ty), {'r': 'aggr', 'agg': 'tuple', 'ops': ops}, span)]
+            term = {'t': 'call', 'func': dict(_CALLONCE), 'args': [_op(clo_l, w.locals[clo_l]['ty']), _op(tup_l, tup_ty)],
+                    'dest': ret_place, 'target': tgt, 'unwind': None, 'span': span, 'fn_span': t.get('fn_span'), 'syn': kind}
+            return stmts, term
+
+        def keep(i):
+            l = w.local(args[i].get('ty', '?'))
+            pre.append(_assign(_pl(l, args[i].get('ty', '?')), {'r': 'use', 'a': copy.deepcopy(args[i])}, span))
+            return l
+        if kind in ('then', 'then_some'):
+            c_l = keep(0)
+            v_l = keep(1)
+            r_l = w.local('?')
+            sblk = w.block([], None)
+            s2 = w.block([_some(_op(r_l), span, dest['l'])] if not dest['p'] else [_assign(copy.deepcopy(dest), {'r': 'aggr', 'agg': 'adt',
+                         'adt': 'std::option::Option', 'variant': 'Some', 'vi': 1, 'fields': ['0'], 'ops': [_op(r_l)]}, span)],
+                         {'t': 'goto', 'target': target, 'span': span})
+            nblk = w.block([_assign(copy.deepcopy(dest), dict(none_rv), span)], {'t': 'goto', 'target': target, 'span': span})
+            if kind == 'then':
+                st, term = call_clo(v_l, [], _pl(r_l), s2)
+                w.blocks[sblk]['stmts'] += st
+                w.blocks[sblk]['term'] = term
+            else:
+                w.blocks[sblk]['stmts'].append(_assign(_pl(r_l), {'r': 'use', 'a': _op(v_l)}, span))
+                w.blocks[sblk]['term'] = {'t': 'goto', 'target': s2, 'span': span}
+            w.blocks[bi]['term'] = {'t': 'switch', 'discr': _op(c_l, 'bool', k='copy'), 'arms': [['0', nblk]], 'otherwise': sblk, 'span': span,
+                                    'syn_option': kind}
+            continue
+        o_l = keep(0)
+        d_l = w.local('isize')
+        pre.append(_assign(_pl(d_l, 'isize'), {'r': 'discr', 'place': _pl(o_l)}, span))
+        x_l = w.local('?payload')
+        sblk = w.block([_assign(_pl(x_l), {'r': 'use', 'a': _op(o_l, '?', some0)}, span)], None)
+        nblk = w.block([], None)
+        fin = {'t': 'goto', 'target': target, 'span': span}
+
+        def set_some(blk, op):
+            w.blocks[blk]['stmts'].append(_assign(copy.deepcopy(dest), {'r': 'aggr', 'agg': 'adt', 'adt': 'std::option::Option',
+                                                                        'variant': 'Some', 'vi': 1, 'fields': ['0'], 'ops': [op]}, span))
+        if kind == 'unwrap_or_else':
+            c_l = keep(1)
+            w.blocks[sblk]['stmts'].append(_assign(copy.deepcopy(dest), {'r': 'use', 'a': _op(x_l, dty)}, span))
+            w.blocks[sblk]['term'] = fin
+            st, term = call_clo(c_l, [], copy.deepcopy(dest), target)
+            w.blocks[nblk]['stmts'] += st
+            w.blocks[nblk]['term'] = term
+        elif kind == 'unwrap_or':
+            v_l = keep(1)
+            w.blocks[sblk]['stmts'].append(_assign(copy.deepcopy(dest), {'r': 'use', 'a': _op(x_l, dty)}, span))
+            w.blocks[sblk]['term'] = fin
+            w.blocks[nblk]['stmts'].append(_assign(copy.deepcopy(dest), {'r': 'use', 'a': _op(v_l, dty)}, span))
+            w.blocks[nblk]['term'] = dict(fin)
+        elif kind in ('map', 'and_then'):
+            c_l = keep(1)
+            r_l = w.local('?')
+            s2 = w.block([], dict(fin))
+            if kind == 'map':
+                st, term = call_clo(c_l, [_op(x_l)], _pl(r_l), s2)
+                set_some(s2, _op(r_l))
+            else:
+                st, term = call_clo(c_l, [_op(x_l)], copy.deepcopy(dest), s2)
+            w.blocks[sblk]['stmts'] += st
+            w.blocks[sblk]['term'] = term
+            w.blocks[nblk]['stmts'].append(_assign(copy.deepcopy(dest), dict(none_rv), span))
+            w.blocks[nblk]['term'] = dict(fin)
+        elif kind == 'filter':
+            c_l = keep(1)
+            xr_l = w.local('&?payload')
+            w.blocks[sblk]['stmts'].append(_assign(_pl(xr_l), {'r': 'ref', 'mut': False, 'bk': 'Shared', 'place': _pl(x_l)}, span))
+            r_l = w.local('bool')
+            s2 = w.block([], None)
+            s3 = w.block([], dict(fin))
+            set_some(s3, _op(x_l))
+            st, term = call_clo(c_l, [_op(xr_l)], _pl(r_l, 'bool'), s2)
+            w.blocks[sblk]['stmts'] += st
+            w.blocks[sblk]['term'] = term
+            w.blocks[s2]['term'] = {'t': 'switch', 'discr': _op(r_l, 'bool'), 'arms': [['0', nblk]], 'otherwise': s3, 'span': span}
+            w.blocks[nblk]['stmts'].append(_assign(copy.deepcopy(dest), dict(none_rv), span))
+            w.blocks[nblk]['term'] = dict(fin)
+        elif kind == 'or_else':
+            c_l = keep(1)
+            set_some(sblk, _op(x_l))
+            w.blocks[sblk]['term'] = fin
+            st, term = call_clo(c_l, [], copy.deepcopy(dest), target)
+            w.blocks[nblk]['stmts'] += st
+            w.blocks[nblk]['term'] = term
+        elif kind == 'map_or':
+            v_l = keep(1)
+            c_l = keep(2)
+            st, term = call_clo(c_l, [_op(x_l)], copy.deepcopy(dest), target)
+            w.blocks[sblk]['stmts'] += st
+            w.blocks[sblk]['term'] = term
+            w.blocks[nblk]['stmts'].append(_assign(copy.deepcopy(dest), {'r': 'use', 'a': _op(v_l, dty)}, span))
+            w.blocks[nblk]['term'] = dict(fin)
+        elif kind == 'map_or_else':
+            d2_l = keep(1)
+            c_l = keep(2)
+            st, term = call_clo(c_l, [_op(x_l)], copy.deepcopy(dest), target)
+            w.blocks[sblk]['stmts'] += st
+            w.blocks[sblk]['term'] = term
+            st, term = call_clo(d2_l, [], copy.deepcopy(dest), target)
+            w.blocks[nblk]['stmts'] += st
+            w.blocks[nblk]['term'] = term
+        w.blocks[bi]['term'] = {'t': 'switch', 'discr': _op(d_l, 'isize'), 'arms': [['0', nblk]], 'otherwise': sblk, 'span': span,
+                                'syn_option': kind}
+    nb = Body(w.raw, body.crate_kind)
+    nb.key_in_facts = getattr(body, 'key_in_facts', body.path)
+    nb.inlined = list(getattr(body, 'inlined', []))
+    nb.original = getattr(body, 'original', body)
+    return nb, len(sites)
+
+
 def loop_form(facts, body, rounds=6):
     """Desugar consumers and splice the closures they call, until nothing changes (closures may contain consumers)."""
     cur = body
     n_total = 0
     for _ in range(rounds):
         cur2, n = desugar_once(cur)
+        cur2, n2 = desugar_options_once(cur2)
+        n += n2
         if n == 0:
             break
         n_total += n
@@ -222,7 +403,7 @@ _INTO_ITER = {'k': 'const', 'ty': 'fn', 'fn': 'std::iter::IntoIterator::into_ite
               'trait': 'std::iter::IntoIterator', 'trait_canon': 'core::iter::traits::collect::IntoIterator', 'synthetic': True}
 
 FUSABLE = ('map', 'filter', 'cloned', 'copied', 'flat_map', 'cartesian_product', 'inspect')
-_IDENT = ('into_iter', 'by_ref')
+_IDENT = ('into_iter', 'by_ref', 'into_par_iter', 'par_iter')
 
 
 def _some(payload_op, span, dest_l):
